@@ -150,6 +150,34 @@ func runSession(srcs []string, names []string) transcript {
 type anomaly struct {
 	key    string
 	detail string
+	b      int // binder the anomaly is about (0 = none)
+}
+
+// Round-6 finding classes (recorded in known_findings.json).  The generator
+// marks the binder concerned (Occ.X) or, for calls of a user function named
+// test / test-let, everything inside the call (context head-special-cased-arg);
+// every anomaly about such a binder or inside such a call is a consequence of
+// the class and gets its key.
+var markerKey = map[string]string{
+	"nested-let":        "stale-ref/ref-to-nested-def/let",
+	"nested-progn":      "stale-ref/ref-to-nested-def/progn",
+	"export-list":       "stale-ref/export-form:quoted-list",
+	"export-string":     "stale-ref/export-form:string",
+	"export-other-file": "stale-ref/export-form:definition-in-other-file",
+}
+
+const headSpecialKey = "stale-ref/call-of-head-special-cased"
+
+func isR6Key(k string) bool {
+	if k == headSpecialKey {
+		return true
+	}
+	for _, v := range markerKey {
+		if v == k {
+			return true
+		}
+	}
+	return false
 }
 
 // specificCtx lists reference contexts that identify a failing behaviour on
@@ -158,10 +186,15 @@ var specificCtx = map[string]bool{
 	"dotimes-result": true, "macrolet-tmpl": true, "tmpl": true, "export-form": true,
 	"quoted-designator": true, "unquote": true, "function-form": true, "tmpl-qualified": true,
 	"macrolet-tmpl-qualified": true, "qualified": true, "set!-target": true, "imported": true, "imported-other-file": true,
-	"ref-to-nested-def": true, "call-of-head-special-cased": true, "forward-call": true,
+	"forward-call": true,
 }
 
 func refKey(kind string, o Occ) string {
+	if strings.Contains(o.C, "head-special-cased") {
+		// the head of, or anything inside, a call of a user function named
+		// test / test-let: one cause whatever the reference looks like
+		return headSpecialKey
+	}
 	if o.C == "def-macro-arg" {
 		return kind + "/def-macro-arg"
 	}
@@ -197,13 +230,28 @@ func refKey(kind string, o Occ) string {
 // lists everything that is statically wrong with the renaming.
 func diagnose(c Case, minLeaves [][]leaf, generated map[string]string) []anomaly {
 	var out []anomaly
+	marker := map[int]string{}
+	for _, f := range c.Files {
+		for _, o := range f.Occ {
+			if o.X != "" && o.B != 0 {
+				marker[o.B] = o.X
+			}
+		}
+	}
+	curB := 0 // binder the occurrence under inspection belongs to
 	add := func(key, format string, a ...any) {
 		if strings.HasSuffix(key, "/def-macro-arg") || strings.Contains(key, "/def-macro-arg/") {
 			// whatever went wrong inside the arguments of a def-named macro
 			// call has one cause: the call was analysed as a definition form
 			key = "misparsed/def-macro-arg"
 		}
-		out = append(out, anomaly{key, fmt.Sprintf(format, a...)})
+		if strings.Contains(key, "head-special-cased") {
+			key = headSpecialKey
+		}
+		if k, ok := markerKey[marker[curB]]; ok && curB != 0 {
+			key = k
+		}
+		out = append(out, anomaly{key, fmt.Sprintf(format, a...), curB})
 	}
 	type nb struct {
 		name  string
@@ -226,6 +274,7 @@ func diagnose(c Case, minLeaves [][]leaf, generated map[string]string) []anomaly
 		}
 	}
 	for id, ns := range binderNew {
+		curB = id
 		for _, n := range ns[1:] {
 			if n.name != ns[0].name {
 				add("split-binder/"+n.where, "binder %q (id %d) defined twice got two names: %q and %q", binderOld[id], id, ns[0].name, n.name)
@@ -264,11 +313,21 @@ func diagnose(c Case, minLeaves [][]leaf, generated map[string]string) []anomaly
 			}
 		}
 	}
+	// a definition exported by a STRING has no export-form symbol to compare:
+	// the anomaly is the renamed definition itself
+	for id, ns := range binderNew {
+		if marker[id] == "export-string" && ns[len(ns)-1].name != binderOld[id] {
+			curB = id
+			add(markerKey["export-string"], "%q is exported by (export %q) but its definition was renamed to %q", binderOld[id], binderOld[id], ns[len(ns)-1].name)
+			exportAnomaly[id] = true
+		}
+	}
 	tmplNew := map[int]string{}
 	for fi, f := range c.Files {
 		ml := symLeaves(minLeaves[fi])
 		for i, o := range f.Occ {
 			nw := ml[i]
+			curB = o.B
 			switch o.R {
 			case "op", "data", "kw", "cond", "pkg", "free":
 				if o.R == "kw" && o.B != 0 {
@@ -333,6 +392,7 @@ func diagnose(c Case, minLeaves [][]leaf, generated map[string]string) []anomaly
 	}
 	// the un-minified client relies on these names
 	for _, sr := range c.ClientRefs {
+		curB = sr.B
 		if exportAnomaly[sr.B] || splitBinder[sr.B] {
 			continue // already reported as stale-ref/export-form
 		}
@@ -351,6 +411,7 @@ func diagnose(c Case, minLeaves [][]leaf, generated map[string]string) []anomaly
 			}
 			_, nn := splitQual(ml[i])
 			_, on := splitQual(o.N)
+			curB = o.B
 			if nn == on {
 				if _, ok := generated[nn]; ok {
 					add("collision/generated-name-in-use", "generated name %q is also the preserved identifier %q (%s %s) in %s", nn, o.N, o.R, o.K, f.Path)
@@ -378,7 +439,7 @@ func diagnose(c Case, minLeaves [][]leaf, generated map[string]string) []anomaly
 // the failure: a binder split in two explains the stale references that
 // follow from it, and so on.
 func anomalyRank(key string) int {
-	for i, p := range []string{"misparsed/", "split-binder/", "misbound-ref/", "keyword-arg/", "renamed/", "split/", "stale-ref/export-form", "stale-ref/", "split-ref/", "orphan-rename/", "surface-renamed/", "collision/"} {
+	for i, p := range []string{"misparsed/", "split-binder/", "misbound-ref/", "keyword-arg/", "renamed/", "split/", "stale-ref/export-form", "stale-ref/ref-to-nested-def", "stale-ref/", "split-ref/", "orphan-rename/", "surface-renamed/", "collision/"} {
 		if strings.HasPrefix(key, p) {
 			return i
 		}
@@ -594,6 +655,11 @@ func checkCase(c Case, ctx *vcommon.Ctx) *vcommon.Failure {
 	}
 	if len(anomalies) > 0 {
 		ctx.Class("static-anomaly")
+		if to.text == tm.text {
+			for _, a := range anomalies {
+				ctx.Class("static-anomaly-without-effect/" + a.key)
+			}
+		}
 	}
 
 	if to.text != tm.text {
@@ -607,6 +673,17 @@ func checkCase(c Case, ctx *vcommon.Ctx) *vcommon.Failure {
 		}
 		if len(anomalies) > 0 {
 			pick := anomalies[0] // ranked: the one closest to a root cause
+			if isR6Key(pick.key) {
+				// a recorded round-6 class must not hide anything else that is
+				// wrong in the same case: its own consequences all carry its key
+				// (see markerKey), so any other anomaly is independent of it
+				for _, a := range anomalies {
+					if !isR6Key(a.key) {
+						pick = a
+						break
+					}
+				}
+			}
 			key = "mismatch:" + pick.key
 			var ds []string
 			for _, a := range anomalies {
